@@ -255,7 +255,7 @@ def main(argv):
     array_part(ob)
     n_arr = ob.n - n_sym
     bounded_ids = {b[0] for b in ob.bad[nb0:]}
-    res = C.pool_map(shard, [(s,) for s in O.systems()])
+    res = O.concolic_map(shard, [(s,) for s in O.systems()])
     n_obj = sum(r[0] for r in res)
     n = ob.n + n_obj
     bad = ob.bad + [b for r in res for b in r[1]]
